@@ -393,16 +393,18 @@ inline SignedIntType ParseSignedInt(const char *nptr, char **endptr, int base) {
     ++p;
   }
 
-  SignedIntType value;
-  const SignedIntType base_val = static_cast<SignedIntType>(base);
+  // accumulate in unsigned arithmetic: the most negative value is reachable
+  // and overflow wraps around instead of being undefined behaviour
+  uint64_t value;
+  const uint64_t base_val = static_cast<uint64_t>(base);
   for (value = 0; isdigit(*p); ++p) {
-    value = value * base_val + static_cast<SignedIntType>(*p - '0');
+    value = value * base_val + static_cast<uint64_t>(*p - '0');
   }
 
   if (endptr) {
     *endptr = (char *)p;  // NOLINT(*)
   }
-  return sign ? value : -value;
+  return static_cast<SignedIntType>(sign ? value : (0ULL - value));
 }
 
 /*!
